@@ -143,17 +143,18 @@ def superBlock : Bytes := [3, 0, 0, 0, 0, 0, 0, 0]
 
 def freshVol : Vol := { dat := openDat superBlock, idx := [] }
 
+/-- the part of `Volume.load` after the integrity check: an error ⇒ read-only with the sorted-file map -/
+def loadChecked (r : Dat × Bytes × Bool) : Vol :=
+  if r.2.2 then { readOnly := true, dat := r.1, idx := r.2.1, map := loadSorted (idxEntries r.2.1) }
+  else { dat := r.1, idx := r.2.1, map := loadCompact (idxEntries r.2.1) }
+
 /-- `Volume.load` on existing files (after the super block was read) -/
 def load (crc : Bytes → UInt32) (dat idx : Bytes) : Vol :=
-  let d0 := openDat dat
   if idx.length % 16 ≠ 0 then
     -- verifyIndexFileIntegrity fails ⇒ read-only ⇒ NewSortedFileNeedleMap fails on the same size check and returns
     -- a typed nil that the deferred cleanup calls Close() on
-    { panicked := true, readOnly := true, dat := d0, idx := idx }
-  else
-    let (d, idx', err) := checkAndFix crc d0 idx
-    if err then { readOnly := true, dat := d, idx := idx', map := loadSorted (idxEntries idx') }
-    else { dat := d, idx := idx', map := loadCompact (idxEntries idx') }
+    { panicked := true, readOnly := true, dat := openDat dat, idx := idx }
+  else loadChecked (checkAndFix crc (openDat dat) idx)
 
 /-! ## reads and writes -/
 
